@@ -479,7 +479,7 @@ package io
 //@   use decwf
 //@   stable dec.simple, dec.reader
 //@   modifies ghost.rpos[ival(dec.reader)], ghost.rfailed[ival(dec.reader)]
-//@   ensures [reference_table_only_grows] len(dec.refer.ref) >= old(len(dec.refer.ref)) && dec.simple == old(dec.simple)
+//@   ensures [reference_table_only_grows] len(dec.refer.ref) >= old(len(dec.refer.ref)) && dec.simple == old(dec.simple) && same(dec.reader, old(dec.reader))
 
 //@ funcs \(\*Decoder\)\.(decode[A-Z][A-Za-z0-9]*|decode|Decode|Read|defaultDecode|decodeError|decodeStringError|ReadObject|readObject|readObjectAsMap|fastDecode|fastDecodePtr) : template decany
 
